@@ -66,6 +66,8 @@ def concretise(hist, unit=1, rng=None, variety=True):
             steps.append({"op": "wu", "req": i, "inc": a * unit})
         elif op == 'settings':
             steps.append({"op": "settings", "pairs": [[4, a * unit]]})
+        elif op == 'mfs':
+            steps.append({"op": "settings", "pairs": [[5, {1: 16384, 2: 32768, 3: 65536}[a]]]})
         elif op == 'srvclose':
             steps.append({"op": "srvclose"})
         elif op == 'close':
@@ -205,6 +207,34 @@ def gen_c02_extra(ctx, thorough):
     for kind in ('stream', 'streamcl'):
         steps = [{"op": "call", "req": 1, "method": "POST", "fields": [], "body": {"kind": kind, "n": 0, "chunk": 0, "eof": 0}}, resp(1, es=True)]
         out.append({'tag': 'emptybody', 'cfg': {}, 'steps': steps})
+    # a field name that occurs more than once in a response: the caller gets every value
+    multi = [["x-multi", "one"], ["x-multi", "two"], ["link", "</a>; rel=preload"], ["link", "</b>; rel=preload"], ["vary", "accept"], ["vary", "origin"], ["x-multi", "three"]]
+    for k in (2, 4, 7):
+        steps = [call(1), call(2), resp(1, fields=multi[:k], es=True), resp(2, fields=multi[k - 2:], es=False), data(2, 5)]
+        out.append({'tag': 'dupfield', 'cfg': {}, 'steps': steps})
+    # interim (1xx) responses before the final one, with and without fields, split or not; then further requests on the connection
+    for interim in ([100], [103], [103, 103], [100, 103]):
+        for split in (None, [3]):
+            steps = [call(1), call(2, fields=[["x-b", "c"]])]
+            for st in interim:
+                steps.append(resp(1, status=st, fields=[["link", "</style.css>; rel=preload"]] if st == 103 else [], es=False, split=split))
+            steps += [resp(1, status=200, fields=rf[:2], es=False), data(1, 12), resp(2, fields=rf[:3], es=True), call(3), resp(3, status=204, fields=[["x-last", "1"]], es=True)]
+            out.append({'tag': 'interim', 'cfg': {}, 'steps': steps})
+    # a response that arrives for a request its caller has given up on, then more requests: the connection's decoder stays in step
+    for late in ('hdr', 'hdr+data'):
+        steps = [call(1), call(2), {"op": "cancel", "req": 1}, resp(1, fields=rf, es=late == 'hdr')] + ([data(1, 20)] if late != 'hdr' else [])
+        steps += [resp(2, fields=rf, es=True), call(3), resp(3, fields=rf[:2] + [["x-new", "v"]], es=True)]
+        out.append({'tag': 'late-response', 'cfg': {}, 'steps': steps})
+    # several streamed uploads in progress at once, stalled on windows in the middle of a chunk, released piecemeal
+    for rep in range(6 if thorough else 3):
+        kinds = [rng.choice(['stream', 'streamcl']) for _ in range(3)]
+        steps = [{"op": "settings", "pairs": [[4, rng.choice([20000, 40000])]]}]
+        steps += [call(i + 1, n=rng.choice([60000, 90000, 131072]), kind=kinds[i], chunk=rng.choice([5000, 16384, 30000, 65536])) for i in range(3)]
+        for _ in range(14):
+            steps.append({"op": "wu", "req": rng.choice([0, 0, 1, 2, 3]), "inc": rng.choice([1, 1000, 16384, 50000])})
+        steps += [{"op": "wu", "req": i, "inc": 300000} for i in (1, 2, 3, 0)]
+        steps += [resp(i, es=True) for i in (1, 2, 3)]
+        out.append({'tag': 'stream-share', 'cfg': {}, 'steps': steps})
     # connection-specific request fields must not reach the server, the rest must
     steps = [call(1, fields=[["connection", "keep-alive"], ["keep-alive", "timeout=5"], ["proxy-connection", "x"], ["upgrade", "h2c"], ["x_under", "1"], ["x-keep", "yes"]]), resp(1, es=True)]
     out.append({'tag': 'connspecific', 'cfg': {}, 'steps': steps})
@@ -233,6 +263,13 @@ def gen_c07_extra(ctx, thorough):
         steps = [{"op": "settings", "pairs": [[5, mfs], [4, 1000000]]}, {"op": "wu", "req": 0, "inc": 1000000}, call(1, n=150000, kind=rng.choice(['buf', 'stream'])), resp(1, es=True),
                  {"op": "settings", "pairs": [[5, 16384]]}, call(2, n=50000), resp(2, es=True)]
         out.append({'tag': 'mfs', 'cfg': {}, 'steps': steps})
+    # MAX_FRAME_SIZE changed while a body is waiting for window: the rest goes out under the new limit
+    for m1, m2 in ((65536, 16384), (32768, 16384), (16384, 65536), (1 << 20, 16384), (65536, 20000)):
+        for kind in ('buf', 'stream'):
+            steps = [{"op": "settings", "pairs": [[5, m1], [4, 40000]]}, call(1, n=150000, kind=kind), call(2, n=90000, kind='buf'),
+                     {"op": "settings", "pairs": [[5, m2]]}, {"op": "wu", "req": 1, "inc": 120000}, {"op": "wu", "req": 0, "inc": 300000},
+                     {"op": "wu", "req": 2, "inc": 120000}, resp(1, es=True), resp(2, es=True)]
+            out.append({'tag': 'mfs-midbody', 'cfg': {}, 'steps': steps})
     # three uploads share the connection window
     steps = [call(1, n=40000), call(2, n=40000, kind='stream'), call(3, n=40000, kind='streamcl')]
     for k in range(8):
